@@ -236,7 +236,9 @@ func (g *rgen) decorate(n *Node) {
 	}
 }
 
-// cellAttrs puts colspan/rowspan on elements whose computed display is table-cell.
+// cellAttrs puts colspan/rowspan on elements whose computed display is table-cell: small valid
+// numbers mostly, otherwise any value of the span attribute family (spans.go: 0, negative, signed,
+// padded, non-numeric, over the maximum, ...).
 func (g *rgen) cellAttrs(n *Node) {
 	sd := specifiedDisplay(n)
 	if sd != "table-cell" || isOutOfFlow(n) {
@@ -247,10 +249,10 @@ func (g *rgen) cellAttrs(n *Node) {
 			n.Attrs = map[string]string{}
 		}
 		if g.r.Float64() < 0.6 {
-			n.Attrs["colspan"] = fmt.Sprint(1 + g.r.Intn(3))
+			n.Attrs["colspan"] = randSpan(g.r, "colspan")
 		}
 		if g.r.Float64() < 0.7 {
-			n.Attrs["rowspan"] = fmt.Sprint(g.r.Intn(4))
+			n.Attrs["rowspan"] = randSpan(g.r, "rowspan")
 		}
 	}
 }
@@ -409,12 +411,12 @@ func (g *rgen) htmlTable(depth int) *Node {
 		case x < 0.27:
 			cg := over(g.b.el("colgroup", ""))
 			if r.Float64() < 0.5 {
-				cg.Attrs = map[string]string{"span": fmt.Sprint(1 + r.Intn(3))}
+				cg.Attrs = map[string]string{"span": randSpan(r, "span")}
 			} else {
 				for j, nc := 0, 1+r.Intn(3); j < nc; j++ {
 					col := over(g.b.el("col", ""))
 					if r.Float64() < 0.4 {
-						col.Attrs = map[string]string{"span": fmt.Sprint(1 + r.Intn(3))}
+						col.Attrs = map[string]string{"span": randSpan(r, "span")}
 					}
 					cg.Kids = ws(cg.Kids)
 					cg.Kids = append(cg.Kids, col)
